@@ -1027,6 +1027,7 @@ def adapt_typehints(
                         skip_args=num_partial_args,
                         partial_classes=partial_classes,
                         prev_val=prev_val,
+                        orig_val=orig_val,
                     )
             except (ImportError, AttributeError, ArgumentError) as ex:
                 raise_unexpected_value(f"Type {typehint} expects a function or a callable class: {ex}", val, ex)
@@ -1048,7 +1049,7 @@ def adapt_typehints(
             val = parser.parse_object(val, defaults=sub_defaults.get() or list_item)
         elif isinstance(val, NestedArg):
             prev_val = prev_val if isinstance(prev_val, Namespace) else None
-            val = parser.parse_args([f"--{val.key}={val.val}"], namespace=prev_val)
+            val = parser.parse_args(nested_arg_as_argv(val, orig_val), namespace=prev_val)
         else:
             raise_unexpected_value(f"Type {typehint} expects a dict or Namespace", val)
 
@@ -1095,7 +1096,9 @@ def adapt_typehints(
                 msg = "implement protocol" if is_protocol(typehint) else "correspond to a subclass of"
                 raise_unexpected_value(f"Import path {val['class_path']} does not {msg} {typehint.__name__}")
             val["class_path"] = get_import_path(val_class)
-            val = adapt_class_type(val, serialize, instantiate_classes, sub_add_kwargs, prev_val=prev_val)
+            val = adapt_class_type(
+                val, serialize, instantiate_classes, sub_add_kwargs, prev_val=prev_val, orig_val=orig_val
+            )
         except (ImportError, AttributeError, AssertionError, ArgumentError) as ex:
             class_path = val if isinstance(val, str) else val["class_path"]
             error = indent_text(str(ex))
@@ -1372,8 +1375,23 @@ def discard_init_args_on_class_path_change(parser_or_action, prev_val, value):
             )
 
 
+def nested_arg_as_argv(nested: NestedArg, orig_val) -> List[str]:
+    """Command line for a nested argument, with the value as it was given instead of the str() of its loaded form."""
+    val = nested.val
+    if not isinstance(val, str) and isinstance(orig_val, NestedArg) and isinstance(orig_val.val, str):
+        val = orig_val.val
+    return [f"--{nested.key}={val}"]
+
+
 def adapt_class_type(
-    value, serialize, instantiate_classes, sub_add_kwargs, prev_val=None, skip_args=0, partial_classes=False
+    value,
+    serialize,
+    instantiate_classes,
+    sub_add_kwargs,
+    prev_val=None,
+    skip_args=0,
+    partial_classes=False,
+    orig_val=None,
 ):
     prev_val = subclass_spec_as_namespace(prev_val)
     value = subclass_spec_as_namespace(value)
@@ -1423,7 +1441,7 @@ def adapt_class_type(
 
     if isinstance(init_args, NestedArg):
         value["init_args"] = parser.parse_args(
-            [f"--{init_args.key}={init_args.val}"],
+            nested_arg_as_argv(init_args, orig_val),
             namespace=prev_init_args,
             defaults=sub_defaults.get(),
         )
